@@ -118,6 +118,21 @@ func runControls(r *Report) {
 			}
 			return false
 		}},
+		{"read-at-least", "AtLeastGood", "AtLeastBad", func(f *ssa.Function) bool {
+			return ClassifyRead(callTo(f, "io:ReadAtLeast")).Shape == "full"
+		}},
+		{"unlock-between", "guarded.SectionGood", "guarded.SectionBad", func(f *ssa.Function) bool {
+			var look, upd ssa.Instruction
+			Instrs(f, func(in ssa.Instruction) {
+				switch in.(type) {
+				case *ssa.Lookup:
+					look = in
+				case *ssa.MapUpdate:
+					upd = in
+				}
+			})
+			return look != nil && upd != nil && unlockBetween(look, upd) == nil
+		}},
 		{"read-error-exits", "LoopGood", "LoopBad", func(f *ssa.Function) bool {
 			ok, _ := readErrorLeavesLoopIdiom(callTo(f, "Read"))
 			return ok
